@@ -94,35 +94,93 @@ func rc[P any, R any](name, wrapTag string, get func(P) R) {
 }
 
 type (
-	PStr   struct{ V string `vgirpc:"v"` }
-	PInt   struct{ V int64 `vgirpc:"v"` }
-	PI32   struct{ V int32 `vgirpc:"v"` }
-	PI8    struct{ V int8 `vgirpc:"v"` }
-	PU64   struct{ V uint64 `vgirpc:"v"` }
-	PU16   struct{ V uint16 `vgirpc:"v"` }
-	PF64   struct{ V float64 `vgirpc:"v"` }
-	PF32   struct{ V float32 `vgirpc:"v"` }
-	PBool  struct{ V bool `vgirpc:"v"` }
-	PBytes struct{ V []byte `vgirpc:"v"` }
-	PStrs  struct{ V []string `vgirpc:"v"` }
-	PInts2 struct{ V [][]int64 `vgirpc:"v"` }
-	PPStrs struct{ V []*string `vgirpc:"v"` }
-	PMapSI struct{ V map[string]int64 `vgirpc:"v"` }
-	PMapIS struct{ V map[int64]string `vgirpc:"v"` }
-	PPInt  struct{ V *int64 `vgirpc:"v"` }
-	PPStr  struct{ V *string `vgirpc:"v"` }
-	PPF64  struct{ V *float64 `vgirpc:"v"` }
-	PDate  struct{ V time.Time `vgirpc:"v,date"` }
-	PTs    struct{ V time.Time `vgirpc:"v,timestamp"` }
-	PTsU   struct{ V time.Time `vgirpc:"v,timestamp_utc"` }
-	PTime  struct{ V time.Time `vgirpc:"v,time"` }
-	PDur   struct{ V time.Duration `vgirpc:"v,duration"` }
-	PDec   struct{ V string `vgirpc:"v,decimal"` }
-	PLStr  struct{ V string `vgirpc:"v,large_string"` }
-	PLBin  struct{ V []byte `vgirpc:"v,large_binary"` }
-	PFix8  struct{ V []byte `vgirpc:"v,fixed_binary[8]"` }
-	PDict  struct{ V string `vgirpc:"v,dict_string"` }
-	PPoint struct{ V wc.SPoint `vgirpc:"v,binary"` }
+	PStr struct {
+		V string `vgirpc:"v"`
+	}
+	PInt struct {
+		V int64 `vgirpc:"v"`
+	}
+	PI32 struct {
+		V int32 `vgirpc:"v"`
+	}
+	PI8 struct {
+		V int8 `vgirpc:"v"`
+	}
+	PU64 struct {
+		V uint64 `vgirpc:"v"`
+	}
+	PU16 struct {
+		V uint16 `vgirpc:"v"`
+	}
+	PF64 struct {
+		V float64 `vgirpc:"v"`
+	}
+	PF32 struct {
+		V float32 `vgirpc:"v"`
+	}
+	PBool struct {
+		V bool `vgirpc:"v"`
+	}
+	PBytes struct {
+		V []byte `vgirpc:"v"`
+	}
+	PStrs struct {
+		V []string `vgirpc:"v"`
+	}
+	PInts2 struct {
+		V [][]int64 `vgirpc:"v"`
+	}
+	PPStrs struct {
+		V []*string `vgirpc:"v"`
+	}
+	PMapSI struct {
+		V map[string]int64 `vgirpc:"v"`
+	}
+	PMapIS struct {
+		V map[int64]string `vgirpc:"v"`
+	}
+	PPInt struct {
+		V *int64 `vgirpc:"v"`
+	}
+	PPStr struct {
+		V *string `vgirpc:"v"`
+	}
+	PPF64 struct {
+		V *float64 `vgirpc:"v"`
+	}
+	PDate struct {
+		V time.Time `vgirpc:"v,date"`
+	}
+	PTs struct {
+		V time.Time `vgirpc:"v,timestamp"`
+	}
+	PTsU struct {
+		V time.Time `vgirpc:"v,timestamp_utc"`
+	}
+	PTime struct {
+		V time.Time `vgirpc:"v,time"`
+	}
+	PDur struct {
+		V time.Duration `vgirpc:"v,duration"`
+	}
+	PDec struct {
+		V string `vgirpc:"v,decimal"`
+	}
+	PLStr struct {
+		V string `vgirpc:"v,large_string"`
+	}
+	PLBin struct {
+		V []byte `vgirpc:"v,large_binary"`
+	}
+	PFix8 struct {
+		V []byte `vgirpc:"v,fixed_binary[8]"`
+	}
+	PDict struct {
+		V string `vgirpc:"v,dict_string"`
+	}
+	PPoint struct {
+		V wc.SPoint `vgirpc:"v,binary"`
+	}
 )
 
 func init() {
